@@ -16,14 +16,31 @@ import (
 
 // C13 — a POP3 session is a stable snapshot whose deletions commit only on QUIT.
 
+// c13Sigma is the full alphabet; the quick tier uses c13Quick (indices into it), which drops the
+// message numbers 3, -1 and 4294967297 and half of the TOP variants.
 var c13Sigma = func() []string {
 	s := []string{"USER u", "USER", "PASS p", "PASS", "APOP u d", "APOP u", "STAT", "STAT x", "LIST", "UIDL", "RSET", "NOOP", "QUIT", "CAPA", "XY", ""}
-	for _, n := range []string{"1", "2", "3", "0", "-1", "99", "x", "4294967297"} {
+	for _, n := range []string{"1", "2", "0", "99", "x", "3", "-1", "4294967297"} {
 		s = append(s, "LIST "+n, "UIDL "+n, "DELE "+n, "RETR "+n)
 	}
 	s = append(s, "TOP 1 0", "TOP 1 1", "TOP 2 1", "TOP 1 -1", "TOP 1 x", "TOP 0 1", "TOP 99 1", "TOP x 1")
 	s = append(s, "!deliver", "!extdel 1", "!extdel 2")
 	return s
+}()
+
+var c13Quick = func() []int {
+	var idx []int
+	for i, l := range c13Sigma {
+		f := strings.Fields(l)
+		if len(f) >= 2 && (f[1] == "3" || f[1] == "-1" || f[1] == "4294967297") && !strings.HasPrefix(l, "!") {
+			continue
+		}
+		if l == "TOP 1 x" || l == "TOP 99 1" || l == "TOP x 1" || l == "TOP 1 0" {
+			continue
+		}
+		idx = append(idx, i)
+	}
+	return idx
 }()
 
 var c13Bodies = []string{
@@ -480,11 +497,27 @@ func c13Run(c *fw.Ctx) {
 	for _, be := range []string{"mem", "file"} {
 		for _, nm := range fw.Pick(c, []int{3, 0}, []int{3, 0, 2}) {
 			be, nm := be, nm
+			// alphabet of this tier: positions → indices into c13Sigma
+			alpha := make([]int, len(c13Sigma))
+			for i := range alpha {
+				alpha[i] = i
+			}
+			if !c.Thorough() {
+				alpha = c13Quick
+			}
+			tr := func(seq []int) []int {
+				out := make([]int, len(seq))
+				for i, p := range seq {
+					out[i] = alpha[p]
+				}
+				return out
+			}
 			e := &fw.SeqExplorer{
-				C: c, NOps: len(c13Sigma),
+				C: c, NOps: len(alpha),
 				FullDepth: fw.Pick(c, 2, 3),
 				MaxDepth:  fw.Pick(c, 4, 6),
-				Run: func(seq []int) (string, bool, bool) {
+				Run: func(pseq []int) (string, bool, bool) {
+					seq := tr(pseq)
 					var key string
 					var ext, nt bool
 					if c.Guard(be, c13Desc(be, nm, seq), func() { key, ext, nt = c13Exec(c, be, nm, seq, false) }) {
@@ -495,7 +528,7 @@ func c13Run(c *fw.Ctx) {
 					}
 					return key, ext, nt
 				},
-				Desc: func(seq []int) any { return c13Desc(be, nm, seq) },
+				Desc: func(pseq []int) any { return c13Desc(be, nm, tr(pseq)) },
 			}
 			e.Explore()
 		}
